@@ -368,6 +368,11 @@ func (c *Chain[K, E]) WriteChain(store *stor.Stor) (uint64, Chain[K, E]) {
 		prevOff = c.Offs[no-merge-1]
 	}
 	off := c.Write(store, prevOff, lastMod)
+	if off == 0 && merge == no && no > 0 {
+		// flattening and no live items left: the chain is now empty,
+		// the old chunks must not be referenced any more
+		return 0, Chain[K, E]{Hamt: c.Hamt, Clock: c.Clock + 1}
+	}
 	if off == 0 {
 		if no > 0 {
 			off = c.Offs[no-1] // nothing written, return current chain
